@@ -207,6 +207,11 @@ def _work(job):
         if ref[0] != "ok":
             continue
         real = real_load(ZConfig, schema, text)
+        if real[0] == "crash":
+            col.case(crc(xml, text))
+            col.violation(crash_sig(real[1]), "internal exception escaped",
+                          {"schema": xml, "text": text}, "a configuration",
+                          repr(real[1]))
         if real[0] != "ok":
             continue            # accept / reject is C01's business
         nsect = text.count("<")
